@@ -686,6 +686,9 @@ func divisionGuarded(fn *ssa.Function, bo *ssa.BinOp) bool {
 	if nonZeroGuarded(fn, bo.Y, bo) {
 		return true
 	}
+	if zeroPredicateGuarded(fn, bo) {
+		return true
+	}
 	// divisor captured from the enclosing function: the guard must dominate the closure creation
 	y := stripIntConv(bo.Y)
 	if u, ok := y.(*ssa.UnOp); ok && u.Op == token.MUL {
@@ -1179,4 +1182,78 @@ func countLoopBounds(fn *ssa.Function) int {
 		}
 	})
 	return n
+}
+
+// zeroPredicateGuarded: the divisor is the integer held by an interface value x (x.(K)), and the division is dominated
+// by the false edge of a test H(x) where H is a repository predicate that returns `v == 0` for x.(K).
+func zeroPredicateGuarded(fn *ssa.Function, bo *ssa.BinOp) bool {
+	y := stripIntConv(bo.Y)
+	var x ssa.Value
+	var kT types.Type
+	switch v := y.(type) {
+	case *ssa.TypeAssert:
+		x, kT = v.X, v.AssertedType
+	case *ssa.Extract:
+		if ta, ok := v.Tuple.(*ssa.TypeAssert); ok && v.Index == 0 {
+			x, kT = ta.X, ta.AssertedType
+		}
+	}
+	if x == nil {
+		return false
+	}
+	for _, b := range fn.Blocks {
+		iff, ok := b.Instrs[len(b.Instrs)-1].(*ssa.If)
+		if !ok {
+			continue
+		}
+		cond, neg := iff.Cond, false
+		if u, ok := cond.(*ssa.UnOp); ok && u.Op == token.NOT {
+			cond, neg = u.X, true
+		}
+		call, ok := cond.(*ssa.Call)
+		if !ok || len(call.Call.Args) != 1 || call.Call.Args[0] != x {
+			continue
+		}
+		h := call.Call.StaticCallee()
+		if h == nil || h.Blocks == nil || !strings.HasPrefix(fnPkgPath(h), pkgLungo) || len(h.Params) != 1 {
+			continue
+		}
+		// the edge on which H(x) is false
+		notZero := b.Succs[1]
+		if neg {
+			notZero = b.Succs[0]
+		}
+		if !(len(notZero.Preds) == 1 && (notZero == bo.Block() || notZero.Dominates(bo.Block()))) {
+			continue
+		}
+		// H returns v == 0 for param.(K)
+		okPred := false
+		allInstrs(h, func(in ssa.Instruction) {
+			ret, isRet := in.(*ssa.Return)
+			if !isRet || len(ret.Results) != 1 {
+				return
+			}
+			cmp, ok := retVal(ret, 0).(*ssa.BinOp)
+			if !ok || cmp.Op != token.EQL {
+				return
+			}
+			if k, ok := constInt(cmp.Y); !ok || k != 0 {
+				return
+			}
+			var ta *ssa.TypeAssert
+			switch v := stripIntConv(cmp.X).(type) {
+			case *ssa.TypeAssert:
+				ta = v
+			case *ssa.Extract:
+				ta, _ = v.Tuple.(*ssa.TypeAssert)
+			}
+			if ta != nil && ta.X == ssa.Value(h.Params[0]) && types.Identical(ta.AssertedType, kT) {
+				okPred = true
+			}
+		})
+		if okPred {
+			return true
+		}
+	}
+	return false
 }
